@@ -26,6 +26,10 @@ struct Context **_ZNSt12forward_listIPN4bloc7ContextESaIS2_EE5frontEv(struct fli
 { (void)this; __CPROVER_assert(g_cache_len > 0, "std::forward_list::front on an empty list is undefined"); g_cache_front_slot = &g_cached_ctx; return &g_cache_front_slot; }
 void _ZNSt12forward_listIPN4bloc7ContextESaIS2_EE9pop_frontEv(struct flist_ContextPtr *this)
 { (void)this; __CPROVER_assert(g_cache_len > 0, "std::forward_list::pop_front on an empty list is undefined"); g_cache_len--; g_cache_pops++; }
+/* void forward_list<Context*>::push_front(Context* const&): a context goes (back) into the cache */
+int g_cache_pushes; const void *g_cache_pushed;
+void _ZNSt12forward_listIPN4bloc7ContextESaIS2_EE10push_frontERKS2_(struct flist_ContextPtr *this, struct Context *const *c)
+{ (void)this; g_cache_len++; g_cache_pushes++; g_cache_pushed = *c; }
 /* Context * Context::createChildRuntime(Context& root, uint8_t recursion) const: a new runtime context at that depth, variables unset */
 struct Context *_ZNK4bloc7Context18createChildRuntimeERS0_h(const struct Context *this, struct Context *root, unsigned char recursion)
 { g_create_n++; g_create_this = this; g_create_root = root; g_create_rec = recursion; g_new_ctx._recursion = recursion; g_new_ctx._returnCondition = 0; return &g_new_ctx; }
@@ -65,7 +69,7 @@ __CPROVER_requires(*(unsigned char *)&caller->_trace <= 1)
 __CPROVER_requires(g_params_len == 0)
 #endif
 __CPROVER_requires(id < g_ndecl && g_cache_len <= 2 && g_params_len <= PARAMS_MAX)
-__CPROVER_requires(__exc == 0 && __caught_n == 0 && g_cache_pops == 0 && g_create_n == 0 && g_reset_n == 0 && g_store_n == 0 && GLOBALS_PINNED)
+__CPROVER_requires(__exc == 0 && __caught_n == 0 && g_cache_pops == 0 && g_cache_pushes == 0 && g_create_n == 0 && g_reset_n == 0 && g_store_n == 0 && GLOBALS_PINNED)
 __CPROVER_assigns()
 PROP(C01) __CPROVER_ensures(ONLY_RUNTIME_ERROR)
 /* the 256th nested call is refused before anything is taken or built */
@@ -80,6 +84,11 @@ PROP(C08) __CPROVER_ensures(OK ==> (ENV_CTX->_recursion == R0 + 1 && ENV_CTX->_r
 /* parameters are bound in order, each from its own argument, evaluated in the caller */
 PROP(C08) __CPROVER_ensures(OK ==> (g_store_n == (int)g_params_len && (g_store_n >= 1 ==> (g_store_ctx[0] == ENV_CTX && g_store_caller[0] == caller && g_store_exp[0] == g_pvals[0] && g_store_id[0] == g_params[0]._id)) &&
                                     (g_store_n >= 2 ==> (g_store_ctx[1] == ENV_CTX && g_store_caller[1] == caller && g_store_exp[1] == g_pvals[1] && g_store_id[1] == g_params[1]._id))))
+/* C17 / C07 (error exit): a context taken out of the cache, or made for this call, never stays without an owner.  When binding a
+ * parameter fails -- f(obj, 1/0) -- it is handed (back) to the cache, so that it, and what was already bound in it (possibly the
+ * last reference to a module object), is released with the function table; on success it belongs to the Env handed back */
+PROP(C07, C17) __CPROVER_ensures((!OK && g_create_n + g_cache_pops > 0) ==> (g_cache_pushes == 1 && g_cache_pushed == (g_create_n ? (const void *)&g_new_ctx : (const void *)&g_cached_ctx)))
+PROP(C07, C17) __CPROVER_ensures(OK ==> (g_cache_pushes == 0 && g_create_n + g_cache_pops == 1))
 /* the caller is not modified */
 PROP(C08) __CPROVER_ensures(caller->_recursion == R0)
 ;
